@@ -34,7 +34,7 @@ prop('C02', level='proof', modules=['Polyseed.Props.C02', 'Polyseed.Props.C02Phr
      technique='Lean 4 proof (linear algebra over GF(2048), decide +kernel over the field) + exhaustive correspondence on mul2',
      assumptions=['coefficients are < 2048 (word indices, coin < 2048)'])
 prop('C04', level='proof', modules=['Polyseed.Props.C04'], suites=[],
-     api=dict(cone={'keygen': 'full'}),
+     api=dict(cone={'keygen': 'result+ev:kdf'}),
      text='Theorems keygen_events (exactly one KDF call; password = 32-byte secret buffer; salt bytes spelled out; 10000 iterations; key length passed through), keygen_password (zero padding for canonical seeds), kdfArgs_inj (different secret/coin/birthday/features give different inputs), kdfArgs_path_independent. S-api records all seven KDF arguments of every call on the real code, compares the key buffer with what the stub wrote and the seed before/after, and compares KDF inputs of seeds reached by different paths (create, decode in any language, load, crypt twice).',
      note=PROOF_NOTE + 'Modelled, not verified: polyseed_keygen. That the library does not READ the key afterwards is invisible to a pattern comparison; only writes are observed.',
      technique='Lean 4 proof (event theorem + injectivity of the salt layout) + API-history correspondence with recorded KDF arguments',
@@ -46,31 +46,31 @@ prop('C05', level='proof', modules=['Polyseed.Props.C05'], suites=['gf'],
      technique='Lean 4 proof (corollary of the GF(2048) single-error theorem) + API-history correspondence',
      assumptions=['coins are < 2048 (the API asserts it; larger values are outside the model)'])
 prop('C12', level='proof', modules=['Polyseed.Props.C12'], suites=[],
-     api=dict(cone={'crypt': 'full'}, weights=dict(crypt=8, storage=1, roundtrip=1)),
+     api=dict(cone={'crypt': 'result+ev:kdf,nfkd', 'dump': 'result', 'store': 'result', 'isenc': 'result'}, weights=dict(crypt=8, storage=1, roundtrip=1)),
      text='Theorems crypt_involutive (twice with the same mask restores a canonical seed bit for bit, every mask), crypt_canon (result canonical for every mask: 150 bits, zero padding, check value recomputed), crypt_toggles, cryptSecret_getD (mask = first 19 KDF bytes, top two bits of the 19th dropped), crypt_events (one KDF call with NFKD(password), salt bytes spelled out, 10000 iterations, 32 bytes; three wipes), crypt_norm_equiv. S-api applies passwords (ASCII, composed/decomposed, empty, 358-400 bytes, invalid UTF-8) with pseudo-random masks and checks every clause on the real code.',
      note=PROOF_NOTE + 'Modelled, not verified: polyseed_crypt, utf8_nfkd_lazy. Assumes the injected NFKD returns a NUL-terminated string shorter than POLYSEED_STR_SIZE and its length.',
      technique='Lean 4 proof (byte-wise XOR algebra, all masks) + API-history correspondence with recorded KDF calls',
      assumptions=['the injected KDF is a deterministic function of its inputs'])
 prop('C18', level='proof', modules=['Polyseed.Props.C18', 'Polyseed.Props.C18Served'], suites=[],
-     api=dict(cone={'inject': 'full', 'create': 'full', '*': 'ids'}, weights=dict(inject=6, roundtrip=2, crypt=1, faults=1)), extra='extra_syms_undef',
+     api=dict(cone={'inject': 'full', 'create': 'result+ids', '*': 'ids'}, weights=dict(inject=6, roundtrip=2, crypt=1, faults=1)), extra='extra_syms_undef',
      text='Theorems step_served (EVERY dependency call of EVERY API call names the entry of the injected table responsible for it - allocation, free, wiping, randomness, clock, KDF, NFC, NFKD - for all inputs and oracles), inject_replaces / inject_last_wins / inject_optional (libc time, malloc, free exactly when the entry is NULL) / inject_frame, create_events (alloc, clock, 19 random bytes, wipe - in this order, nothing else), create_secret (secret = the 19 bytes with the top two bits of the last dropped; injective on the 150 bits), create_junk_independent. S-api injects two distinguishable stub sets with each optional entry present/NULL (libc interposed with --wrap), overwrites and unmaps the caller struct after injection, and checks which function served every dependency call.',
      note=PROOF_NOTE + 'Modelled, not verified: dependency.c, polyseed_create. "No other source of randomness or time" is additionally checked by the undefined-symbol inventory of the objects (S-syms).',
      technique='Lean 4 proof (event theorems over all random/clock outputs) + API-history correspondence with function identities',
      assumptions=[])
 prop('C03', level='proof', modules=['Polyseed.Props.C03'], suites=['pack'],
-     api=dict(cone={'encode': 'full'}, weights=dict(roundtrip=6, errors=1, storage=1)),
+     api=dict(cone={'encode': 'result+ev:nfc'}, weights=dict(roundtrip=6, errors=1, storage=1)),
      text='Theorems dataToPoly_eq_spec (the chunk loops of polyseed_data_to_poly compute exactly the README layout: base-1024 digits of the 150-bit secret, one feature/birthday bit each, for EVERY well-formed seed - loops unrolled symbolically, 15 equations by omega), checkValue_eq_spec (word 1 = check value over GF(2)[x]/(x^11+x^2+1) as defined in the spec), encodeCoeffs_eq_spec (coin XORed into word 2), encodeTmp_eq_spec / encode_eq_spec (joined by the separator, NFC by the injected function iff the language composes), encode_pure, flags_as_published (kernel-evaluated on the regenerated registry), the published English vector. Correspondence: 165 single-bit seeds, pairs, random seeds through data_to_poly/poly_to_data; encode on the real code compared with an independent Python rendering of the format.',
      note=PROOF_NOTE + 'Modelled, not verified: gf.c, polyseed_encode. Spec (Model/Spec.lean) is written from README.md; "an independent implementation" is represented by Spec plus vlib/spec.py.',
      technique='Lean 4 proof (symbolic unrolling of the packing loops + omega; spec written from the README) + correspondence on packing and encode',
      assumptions=['canonical seed (proved invariant, C13)'])
 prop('C13', level='proof', modules=['Polyseed.Props.C13'], suites=[],
-     api=dict(cone=None, sessions=10),
+     api=dict(cone={'*': 'result', 'keygen': 'result+ev:kdf', 'crypt': 'result+ev:kdf'}, sessions=10),
      text='Theorems inv_step / inv_run / inv_run_init (every seed the library holds after ANY finite history is canonical - 150 bits, zero padding, consistent check value - for all oracles, junk and allocation failures; induction over the history), concr_abs / canon_determined (a canonical seed IS its abstract value (secret, birthday, features): equal abstract values give identical seeds), store_abs / encode_abs / keygen_abs / queries_abs (every observable output is a function of the abstract value written with Spec.* only), frame (a call never changes a seed other than its argument), plus createData_canon, polyToData_canon, decodeFinish_inv. With C06.load_store and C01.decodeExplicit_encode this gives "storing, loading, encoding and decoding a handed-out seed always succeed". S-api: random histories over up to 16 live seeds with outputs fed back exact and mutated; every op is compared with the model; every seed handed out is dumped and checked canonical.',
      note=PROOF_NOTE + 'The abstract model is realised as the canonical-representation theorem plus per-observation equations rather than a second transition system. Calls with dead handles are undefined behaviour in C and outside the model (badHandle).',
      technique='Lean 4 proof (invariant by induction over histories + canonical-representation refinement + frame) + API-history correspondence',
      assumptions=['oracles return bytes (OraclesOK); coin < 2048; load buffers are 32 bytes; handles passed are live'])
 prop('C15', level='proof', modules=['Polyseed.Props.C15'], suites=[],
-     api=dict(cone={'*': 'ev:alloc,free+status'}, weights=dict(faults=6, unsupported=3, storage=2, roundtrip=2, badtokens=1, garbage=1), sessions=5), extra='extra_faults',
+     api=dict(cone={'*': 'ledger+status'}, weights=dict(faults=6, unsupported=3, storage=2, roundtrip=2, badtokens=1, garbage=1), sessions=5), extra='extra_faults',
      text='Theorems step_ledger / run_ledger / run_ledger_init (for EVERY history, oracle and schedule of allocation failures the ledger computed from the event trace is defined - no double free, no foreign free, no live block handed out twice - and equals the set of seeds the library holds: nothing leaks), failed_call_balanced (a failing call returns every block it took), alloc_failure_create/load/decode (memory status, no seed, no further block access), free_events (freeing NULL does nothing; a seed is wiped through the injected wipe then freed exactly once), junk independence. Fault enumeration on the real code: a history reaching every outcome class is run for every subset of failing allocation requests, diffed against the model, with the harness allocator checking the ledger itself (guard pages, unmapped-on-free, zeroed-at-free).',
      note=PROOF_NOTE + 'Malloc contract (a block handed out is not live; ids unique) is the hypothesis Inv.',
      technique='Lean 4 proof (ledger invariant by induction over histories, all fault schedules) + exhaustive fault enumeration over a fixed history',
@@ -83,17 +83,17 @@ prop('C20', level='other', modules=['Polyseed.Props.C20'], suites=[], extra='ext
      text='Theorems thread_serial (in EVERY interleaving of calls of any number of threads, each thread observes exactly the outputs a serial execution of its own calls gives, provided the other threads make no inject/enable_features calls and neither name nor are handed one of its blocks; induction over the interleaving), step_local (outputs, dependency calls and consumed oracle answers depend on the state only through the dependency table, the feature mask and the seeds the call is given), step_agree (pointwise congruence), step_untouched, step_globals, globals_unchanged (every call other than inject/enable_features leaves the dependency table and the feature mask alone), other_thread_frame = C13.frame (a call never changes a seed other than its argument or the fresh block it obtains), on top of C15 (block identities never collide). Runtime: writable-symbol inventory of the objects built from the tree (complete: exactly the dependency table, the feature mask, the GF table and the registry array) and N threads x iterations under ThreadSanitizer with per-thread digests of every observable result compared with the serial run, yields injected through the dependency stubs.', note=PROOF_NOTE, technique='Lean 4 interleaving theorem on the model + ThreadSanitizer + writable-symbol inventory', assumptions=[],
      explanation='model: calls of different threads on disjoint seeds commute (each reads only the injected-dependency table, the feature mask and its own seeds); code: the writable-symbol inventory of the objects built from the tree is exactly {polyseed_deps, reserved_features, polyseed_mul2_table} (complete), and N threads run under ThreadSanitizer with per-thread results compared with the serial run (schedules sampled)')
 prop('C16', level='other', modules=['Polyseed.Props.C16', 'Polyseed.Props.C18Served'], suites=[],
-     api=dict(cone={'*': 'ev:zero,free'}, weights=dict(roundtrip=3, crypt=3, faults=2, unsupported=2, storage=2, badtokens=1), sessions=3), extra='extra_stack',
+     api=dict(cone={'*': 'wipes'}, weights=dict(roundtrip=3, crypt=3, faults=2, unsupported=2, storage=2, badtokens=1), sessions=3), extra='extra_stack',
      text='Theorems step_served (all wiping goes through the injected function: every wipe event of every call names lib.deps.memzero), free_wipes_first / freeEvents_wipe (a seed block - freed by the caller or by the library on its error paths - is wiped through the injected wipe over its whole size immediately before the injected free), decodeExplicit_wipes, decode_wipes (phrase copy, token pointers, polynomial on EVERY exit path; the detection loop index array whenever the loop ran), create_wipes, encode_wipes, crypt_wipes (polynomial, mask, normalised password), load_wipes. Runtime: memzero events of every op compared with the model (S-api), and the stack scan: 19 function/exit-path cases on a dedicated pre-patterned stack, scanned for secret bytes, indices (16/32/64-bit), phrase, password, mask, against a control run; gcc -O0/-O2 (thorough: + -O1/-O3 and clang -O0/-O2/-O3).', note=PROOF_NOTE, technique='Lean 4 theorem on the model wipe discipline + stack scan', assumptions=[],
      explanation='model: every temporary that receives secret-derived data is the target of an injected wipe of its full size on every exit path, and a freed seed block is wiped first (theorems over all inputs); code: memzero events of every op compared with the model, plus a scan of the dead stack after every API function x exit path x compiler setting')
 prop('C17', level='proof', modules=['Polyseed.Props.C17'], suites=[],
-     api=dict(cone={'encode': 'full'}, weights=dict(roundtrip=6, variants=1), sessions=3), extra='extra_c17',
+     api=dict(cone={'encode': 'result', 'decode': 'result', 'decodex': 'result'}, weights=dict(roundtrip=6, variants=1), sessions=3), extra='extra_c17',
      text='Theorems maxPhrase_lt_all (for every registered language 16*longest word + 15*separator < POLYSEED_STR_SIZE: kernel-evaluated on the tables and the constant of the CURRENT tree), encodeTmp_length_le (every phrase, all seeds and coins, is at most that long), encode_no_overflow (the str_tmp overflow outcome of the model is unreachable), encode_output_fits (returned size = length of the output < buffer size), lazyNfkd_no_truncation. The extremal witness seed of every language is encoded on the real code under ASan with the caller buffer against a guard page, and decoded back.',
      note=PROOF_NOTE + 'The composed-form bound assumes the injected NFC does not lengthen a phrase (hypothesis hnfc; observed on every encode of the run).',
      technique='Lean 4 proof (kernel-evaluated per-position maxima of the regenerated tables) + extremal witness seeds on the real code',
      assumptions=['NFC composition does not lengthen a string'])
 prop('C01', level='proof', modules=['Polyseed.Props.C01'], suites=['pack'],
-     api=dict(cone=['encode', 'decode', 'decodex', 'decoden', 'create', 'load', 'dump', 'store', 'keygen'], weights=dict(roundtrip=8, crypt=1, storage=1)), extra='extra_norm',
+     api=dict(cone={'encode': 'result', 'decode': 'result', 'decodex': 'result', 'decoden': 'result', 'create': 'result', 'load': 'result', 'dump': 'result', 'store': 'result', 'keygen': 'result+ev:kdf'}, weights=dict(roundtrip=8, crypt=1, storage=1)), extra='extra_norm',
      text='Theorems decodeExplicit_encode (for EVERY canonical supported seed, coin < 2048 and language whose table passed the kernel check: explicit decoding of the encoded phrase returns OK and the identical seed), decode_encode (auto-detection: that seed with that language, or the multiple-languages status; nothing else), decodeExplicit_wrong_coin, normOK_ascii. They rest on polyToData_dataToPoly (packing round trip, all seeds), the GF(2048) algebra, splitN_joinWords, findAll_words (from the tables) and one explicit hypothesis NormOK about the injected normalisers; normOK_of_asciiCheck discharges it for the four languages whose REGENERATED tables are pure ASCII (English, Italian, Portuguese, Czech: kernel-checked asciiOk) from the dependency contract alone (normalisers are the identity on ASCII), so the round trip there has no hypothesis about Unicode data; for the other six NormOK is validated by exhaustive execution (S-norm). S-api performs round trips in all languages with real NFC/NFKD (utf8proc) and compares seeds, serialized bytes and KDF inputs.',
      note=PROOF_NOTE + 'NormOK (NFKD(NFC(phrase)) = words joined by single spaces) is a statement about Unicode data outside the repository: validated by exhaustive execution over all 20480 words and separators with two independent normalisers, not proved.',
      technique='Lean 4 proof (round trip through packing, checksum, tokeniser and table lookup; hypothesis NormOK) + API round trips with real normalisers',
@@ -119,7 +119,7 @@ prop('C09', level='proof', modules=['Polyseed.Props.C09'], suites=['detect'],
      technique='Lean 4 proof (generic case analysis of the detection loop and tokeniser inversion) + correspondence on phrase_decode and API decodes',
      assumptions=[])
 prop('C06', level='proof', modules=['Polyseed.Props.C06'], suites=['store'],
-     api=dict(cone={'load': 'full', 'store': 'full'}, weights=dict(storage=8, unsupported=2, crypt=1, roundtrip=1), sessions=4),
+     api=dict(cone={'load': 'result', 'store': 'result'}, weights=dict(storage=8, unsupported=2, crypt=1, roundtrip=1), sessions=4),
      text='Theorems store_bytes, load_store, load_ok_iff (for EVERY list of 32 bytes: accepted iff it is byte-for-byte the image of a canonical supported seed), store_of_loaded, load_status (precedence memory > format > checksum > unsupported), dataLoad_format_iff. polyseed_data_store/load are compared with the model on valid images, field-wise mutations (exhaustive in the thorough tier) and random buffers.',
      note=PROOF_NOTE + 'Modelled, not verified: storage.c and polyseed_load (hand transcription).',
      technique='Lean 4 proof (iff-characterisation over all 32-byte lists) + correspondence on store/load',
@@ -137,49 +137,7 @@ prop('C11', level='proof', modules=['Polyseed.Props.C11'], suites=['bday'],
 
 
 import re as _re
-
-
-def project(block, aspect):
-    """what of an op block (list of transcript lines) concerns a property: 'full', 'status', or 'ev:<kinds>' (dependency-call
-    records of these kinds, in order; for `zero` only the target and length), optionally '+status' / '+ids' (function identities only)"""
-    if aspect == 'full':
-        return tuple(block)
-    out = [block[0]]
-    for a in aspect.split('+'):
-        if a == 'status':
-            for l in block:
-                if l.startswith('< '):
-                    m = _re.search(r'st=(\d+)', l)
-                    out.append(m.group(0) if m else l if ('seed=' not in l and 'key=' not in l and 'buf=' not in l and 'str=' not in l) else '')
-                    m = _re.search(r'seed=(\S+)', l)
-                    out.append('seed' if (m and m.group(1) != '-') else 'noseed')
-        elif a.startswith('ev:'):
-            kinds = a[3:].split(',')
-            for l in block:
-                if l.startswith('E ') and l.split()[1] in kinds:
-                    out.append(l)
-        elif a == 'ids':
-            for l in block:
-                if l.startswith('E '):
-                    p = l.split()
-                    out.append(p[1] + ' ' + p[2])
-        elif a == 'result':
-            out += [l for l in block if l.startswith('< ')]
-    return tuple(out)
-
-
-def cone_differs(cone, cb, mb):
-    """does the disagreement between code block cb and model block mb concern the property whose cone is given?
-    cone: None (everything), list of op names (whole block), or dict op name -> aspect"""
-    opname = cb[0].split()[1] if len(cb[0].split()) > 1 else '?'
-    if cone is None:
-        return True
-    if isinstance(cone, (list, tuple, set)):
-        return opname in cone
-    asp = cone.get(opname, cone.get('*'))
-    if asp is None:
-        return False
-    return project(cb, asp) != project(mb, asp)
+from .cone import cone_differs, in_cone, RESULT
 
 
 class Violation:
@@ -197,7 +155,7 @@ class Violation:
 
 def run_suite(ctx, pid, S, viol, stats):
     for variant in S.variants:
-        res = core.run_pair(ctx.tree, variant, S.script, S.name)
+        res = core.run_pair(ctx.tree, variant, S.script, S.name, cone=RESULT)
         res.suite = S.name
         st = stats.setdefault(S.name, dict(evaluations=0, distinct=set(), samples=[], variants=[], wall=0.0, note=S.note, exhaustive=S.exhaustive, mismatches=0, hist={}))
         st['evaluations'] += res.ops
@@ -282,7 +240,7 @@ def run_api(ctx, pid, viol, stats, weights=None, sessions=None, nops=None, varia
                     st['samples'].append(op.block()[:5])
             if sess.crashed:
                 opn = sess.script[-1].split()[0] if sess.script else '?'
-                inside = cone is None or (opn in cone) or (isinstance(cone, dict) and '*' in cone)
+                inside = in_cone(cone, opn)
                 viol.append(Violation('crash', 'crash:' + opn,
                                       ('the real code crashed / was stopped by a sanitizer in an API history (%s): %s' if inside else
                                        'exploration of this property was cut short: the real code crashed in "' + opn + '", a call outside this property\'s concern (%s): %s') % (variant, sess.crashed[:1500]),
@@ -290,10 +248,8 @@ def run_api(ctx, pid, viol, stats, weights=None, sessions=None, nops=None, varia
             for (p, key, msg, script) in g.viol:
                 if p == pid or p in ALSO.get(pid, ()):
                     viol.append(Violation('oracle', key, msg, script=script[-700:], suite=tag, variant=variant, found_input=True))
-            for (i, cb, mb) in session.diff_with_model(sess)[:5]:
+            for (i, cb, mb) in session.diff_with_model(sess, cone)[:5]:
                 opname = cb[0].split()[1] if len(cb[0].split()) > 1 else '?'
-                if not cone_differs(cone, cb, mb):
-                    continue
                 st['mismatches'] += 1
                 viol.append(Violation('correspondence', 'corr:%s:%s' % (tag, opname),
                                       'API history (%s): the real code and the model disagree at op %d (%s)' % (variant, i, cb[0][:100]),
@@ -345,7 +301,7 @@ def extra_c17(ctx, pid, viol, stats):
     for li in range(ctx.langs.n):
         sec, b, f, coin, n = witness_seed(ctx, li)
         script = [suites.INJECT, 'features 7', 'load 0 ' + spec.storage(sec, b, f).hex(), 'encode 0 %d %d' % (li, coin)]
-        res = core.run_pair(ctx.tree, 'asan', script, 'witness')
+        res = core.run_pair(ctx.tree, 'asan', script, 'witness', cone=RESULT)
         st['evaluations'] += res.ops
         for op in res.c_ops:
             st['distinct'].add(op.head)
@@ -364,7 +320,7 @@ def extra_c17(ctx, pid, viol, stats):
         elif enc and enc[0].kv('str'):
             # feed it back: must decode without truncation to the same seed
             s2 = script + ['decodex 1 %d %d %s' % (coin, li, enc[0].kv('str')), 'store 0', 'store 1']
-            r2 = core.run_pair(ctx.tree, 'asan', s2, 'witness2')
+            r2 = core.run_pair(ctx.tree, 'asan', s2, 'witness2', cone=RESULT)
             st['evaluations'] += r2.ops
             stores = [op.kv('buf') for op in r2.c_ops if op.head.startswith('store')]
             dec = [op for op in r2.c_ops if op.head.startswith('decodex')]
@@ -488,7 +444,7 @@ def extra_sign(ctx, pid, viol, stats):
         script.append('free 0')
     results = {}
     for variant in ('asan', 'unsigned'):
-        res = core.run_pair(ctx.tree, variant, script, 'sign')
+        res = core.run_pair(ctx.tree, variant, script, 'sign', cone=RESULT)
         results[variant] = res
         st['evaluations'] += res.ops
         for op in res.c_ops:
@@ -547,7 +503,7 @@ def extra_faults(ctx, pid, viol, stats):
             script.append('!failalloc -1')
         script += ['store 0', 'encode 1 %d %d' % (li, coin), 'crypt 2 70617373', 'keygen 4 0 32']
         script += ['free %d' % i for i in range(12)] + ['free null']
-        res = core.run_pair(ctx.tree, 'asan', script, 'faults')
+        res = core.run_pair(ctx.tree, 'asan', script, 'faults', cone={'*': 'ledger+status'})
         total += 1
         st['evaluations'] += res.ops
         for op in res.c_ops:
@@ -569,7 +525,7 @@ def extra_faults(ctx, pid, viol, stats):
             if failing and op.kv('st') != '6':
                 viol.append(Violation('oracle', 'alloc-fail-status', 'allocation failed during "%s" but the call returned status %s, not the memory status' % (op.head[:80], op.kv('st')),
                                       script=script, suite='faults', variant='asan', found_input=True))
-        for (i, cb, mb) in [m for m in res.mismatches if cone_differs({'*': 'ev:alloc,free+status'}, m[1], m[2])][:2]:
+        for (i, cb, mb) in res.mismatches[:2]:
             st['mismatches'] += 1
             viol.append(Violation('correspondence', 'corr:faults', 'failing allocations %s: code and model disagree at op %d' % (bin(mask), i), script=script, expected=mb, observed=cb, suite='faults', variant='asan'))
         if mask == 5:
@@ -782,7 +738,7 @@ def extra_malformed(ctx, pid, viol, stats):
             b[31] = 0x70 | (b[31] & 7)
         script.append('load 2 ' + bytes(b).hex())
         script.append('free 2')
-    res = core.run_pair(ctx.tree, 'asan', script, 'malformed')
+    res = core.run_pair(ctx.tree, 'asan', script, 'malformed', cone={'*': 'status'})
     st['evaluations'] += res.ops
     documented = {'decode': {'0', '1', '2', '3', '4', '6', '7'}, 'decodex': {'0', '1', '2', '3', '4', '6'}, 'load': {'0', '3', '4', '5', '6'}}
     for op in res.c_ops:
@@ -798,7 +754,7 @@ def extra_malformed(ctx, pid, viol, stats):
         viol.append(Violation('crash', 'crash:malformed', 'the real code crashed / was stopped by a sanitizer or guard page: %s' % res.crash[:1500], script=context_script(script, res, len(res.c_ops) - 1) if res.c_ops else script[:5], suite='malformed', variant='asan', found_input=True))
     for (i, head, text) in res.complaints:
         viol.append(Violation('oracle', 'harness:' + text.split()[1], 'harness observed at "%s": %s' % (head[:100], text), script=[suites.INJECT, head], suite='malformed', variant='asan', found_input=True))
-    for (i, cb, mb) in [m for m in res.mismatches if cone_differs({'*': 'status'}, m[1], m[2])][:3]:
+    for (i, cb, mb) in res.mismatches[:3]:
         st['mismatches'] += 1
         viol.append(Violation('correspondence', 'corr:malformed', 'malformed input: code and model disagree at op %d (%s)' % (i, cb[0][:80]), script=context_script(script, res, i), expected=mb, observed=cb, suite='malformed', variant='asan'))
     end = [h for h in res.header if h.startswith('# end')]
